@@ -75,3 +75,70 @@ Print Assumptions C02_machine_refines_spec.
 Print Assumptions C02_update_step.
 Print Assumptions C02_history_refines.
 Print Assumptions C02_new_is_empty.
+Print Assumptions C02_nonvacuous.
+
+(* ---- the model against the source text: the small functions of src/lib.rs -----------------------------
+   gen/GenLibSmall.v is the text of struct Output / ChunkState, Output::chaining_value / root_hash /
+   root_output_block, ChunkState::new / start_flag, parent_node_output, Hasher::new_internal (src/lib.rs) and
+   platform::le_bytes_from_words_32 (src/platform.rs), translated statement by statement (tools/gen_coq.py
+   gen_lib_small): which platform function is called with which arguments (cv, block, block_len, counter,
+   flags | ROOT), block = left ++ right, BLOCK_LEN, counter 0, flags | PARENT are the source's.  Each equals the
+   definition of Model/RsChunk.v (or the specification's parent_output the models use), for all arguments; the
+   source's records carry the platform, which the models pass separately. *)
+From V Require Import Base.Arr gen.GenLibSmall Proofs.GenLibSmallP.
+
+Theorem C02_lib_src_records : forall cv block bl ctr fl p buf buf_len blocks,
+  out_of_lib (lib_Output_mk cv block bl ctr fl p) = mkOutput cv block bl ctr fl /\
+  cs_of_lib (lib_ChunkState_mk cv ctr buf buf_len blocks fl p) = mkCS cv ctr buf buf_len blocks fl.
+Proof. intros. split; reflexivity. Qed.
+Print Assumptions C02_lib_src_records.
+
+Theorem C02_lib_src_le_bytes_from_words_32 : forall words, length words = 8%nat ->
+  lib_le_bytes_from_words_32 words = bytes_of_words words.
+Proof. exact lib_le_bytes_from_words_32_eq. Qed.
+Print Assumptions C02_lib_src_le_bytes_from_words_32.
+
+Theorem C02_lib_src_output_chaining_value : forall o,
+  PlatformOK (lib_Output_platform o) -> length (lib_Output_input_chaining_value o) = 8%nat ->
+  lib_Output_chaining_value o = out_chaining_value (lib_Output_platform o) (out_of_lib o).
+Proof. exact lib_Output_chaining_value_eq. Qed.
+Print Assumptions C02_lib_src_output_chaining_value.
+
+(* the model's assert 1300 is the source's debug_assert_eq!(self.counter, 0) *)
+Theorem C02_lib_src_output_root_hash : forall o,
+  PlatformOK (lib_Output_platform o) -> length (lib_Output_input_chaining_value o) = 8%nat ->
+  out_root_hash (lib_Output_platform o) (out_of_lib o) =
+  if lib_Output_root_hash_debug_assert o then Ok (lib_Output_root_hash o) else Panic 1300.
+Proof. exact lib_Output_root_hash_eq. Qed.
+Print Assumptions C02_lib_src_output_root_hash.
+
+Theorem C02_lib_src_output_root_output_block : forall o,
+  lib_Output_root_output_block o = out_root_output_block (lib_Output_platform o) (out_of_lib o).
+Proof. exact lib_Output_root_output_block_eq. Qed.
+Print Assumptions C02_lib_src_output_root_output_block.
+
+Theorem C02_lib_src_chunk_state_new : forall key chunk_counter flags p,
+  cs_of_lib (lib_ChunkState_new key chunk_counter flags p) = cs_new key chunk_counter flags /\
+  lib_ChunkState_platform (lib_ChunkState_new key chunk_counter flags p) = p.
+Proof. exact lib_ChunkState_new_eq. Qed.
+Print Assumptions C02_lib_src_chunk_state_new.
+
+Theorem C02_lib_src_chunk_state_start_flag : forall c,
+  lib_ChunkState_start_flag c = Ok (cs_start_flag (cs_of_lib c)).
+Proof. exact lib_ChunkState_start_flag_eq. Qed.
+Print Assumptions C02_lib_src_chunk_state_start_flag.
+
+Theorem C02_lib_src_parent_node_output : forall left_child right_child key flags p,
+  length left_child = 32%nat -> length right_child = 32%nat ->
+  out_of_lib (lib_parent_node_output left_child right_child key flags p) = parent_output key flags left_child right_child /\
+  lib_Output_platform (lib_parent_node_output left_child right_child key flags p) = p.
+Proof. exact lib_parent_node_output_eq. Qed.
+Print Assumptions C02_lib_src_parent_node_output.
+
+(* Hasher::new_internal; the platform Platform::detect() returns is a parameter of the translation (the models take
+   the platform as an argument of every operation); cv_stack: ArrayVec::new() is the empty stack *)
+Theorem C02_lib_src_hasher_new_internal : forall key flags p,
+  hasher_of_lib (lib_Hasher_new_internal key flags p) = new_internal key flags /\
+  lib_ChunkState_platform (lib_Hasher_chunk_state (lib_Hasher_new_internal key flags p)) = p.
+Proof. exact lib_Hasher_new_internal_eq. Qed.
+Print Assumptions C02_lib_src_hasher_new_internal.
